@@ -90,7 +90,27 @@ func (fx *FuncExec) calleeName(c *ssa.CallCommon, st *State) (name string, fn *s
 	return n, nil, nil, nil
 }
 
+// execCall runs a call and remembers what it returned under "<callee>#<static ordinal>" (spec: ret("f#N"),
+// ret("f#N", i) for the i-th result): contracts can then speak about "the value the N-th call of f gave
+// back" without naming the local it was stored in.
 func (fx *FuncExec) execCall(st *State, instr ssa.Instruction, c *ssa.CallCommon, deferred bool) Val {
+	res := fx.execCallInner(st, instr, c, deferred)
+	if name, ok := fx.callNames[instr]; ok {
+		ord := 0
+		if o, ok := fx.callOrdStatic[instr]; ok {
+			ord = o
+		}
+		if ord > 0 {
+			if st.rets == nil {
+				st.rets = map[string]Val{}
+			}
+			st.rets[fmt.Sprintf("%s#%d", name, ord)] = res
+		}
+	}
+	return res
+}
+
+func (fx *FuncExec) execCallInner(st *State, instr ssa.Instruction, c *ssa.CallCommon, deferred bool) Val {
 	name, fn, binds, recv := fx.calleeName(c, st)
 	var args []Val
 	if c.IsInvoke() && fn != nil && recv != nil {
